@@ -16,6 +16,12 @@ use avt::Vt;
 
 /// Which known finding (if any) the state at dump time belongs to.
 pub fn known_class(hs: &VerifState, cursor_row: usize) -> Option<&'static str> {
+    // C11-d: the dump addresses the cursor and run-length-encodes with 16-bit parameters; on a screen
+    // of 65535 or more columns / rows positions and runs beyond that cannot be expressed (the
+    // wrap-pending column of a 65535-column screen is already parameter 65536)
+    if hs.cols >= 65535 || hs.rows >= 65535 {
+        return Some("C11-d");
+    }
     // C11-b: a resize happened while the alternate screen was showing; the parked primary buffer
     // is re-wrapped lazily and dump() emits it in its stale geometry
     if hs.alternate_active && (hs.other_buffer.cols, hs.other_buffer.rows) != (hs.cols, hs.rows) {
@@ -360,6 +366,27 @@ pub fn work(ctx: &Ctx, rep: &mut Report) {
         }
         if ctx.shard == 0 {
             rep.count("cuts_of_capped_parameter_lists", units.len() as u64);
+        }
+    }
+    // (f) screens beyond 2^16 in one dimension (kept tiny in the other)
+    {
+        let cases: Vec<(usize, usize, &str)> = vec![
+            (65560, 2, "\x1b[41m\x1b[2J\x1b[m\x1b[1;1H\x1b[65535C\x1b[20Cq"),
+            (70000, 1, "\x1b[1;32mxy\x1b[65535bz"),
+            (2, 65560, "a\x1b[65535B\x1b[20Bq"),
+            (65536, 1, "\x1b[44m\x1b[K\x1b[65535C\x1b[Cq"),
+            (65535, 2, "\x1b[41m\x1b[2J\x1b[m\x1b[1;65535Hq"),
+            (2, 65535, "a\x1b[65535;2Hq"),
+        ];
+        for u in ctx.units(cases.len()) {
+            let (c, r, input) = cases[u];
+            let mut h = History::new(c, r, None);
+            h.calls.push(Call::FeedStr(input.to_string()));
+            h.meta.push(("dump_at".into(), 1));
+            h.calls.push(Call::FeedStr("Z".into()));
+            h.calls.push(Call::FeedStr("\x1b[1;1HQ".into()));
+            c11_history(&h, rep);
+            rep.count("round_trips_on_screens_beyond_65535", 1);
         }
     }
     // (c) every cut of short histories (also inside ESC/CSI/DCS/OSC and parameter lists)
